@@ -352,23 +352,25 @@ def main(ctx):
                     'Forward', dict(NoEofRelay='TRUE', FixLost='TRUE',
                                     FixCross='TRUE'),
                     ['HalfClose'], expect='HalfClose'))
-    jobs.append(Job('fwd witness early flush', 'Forward',
-                    dict(MaxW=2), ['NeverEarlyFlush'],
-                    expect='NeverEarlyFlush'))
+    if not quick:
+        jobs.append(Job('fwd witness early flush', 'Forward',
+                        dict(MaxW=2), ['NeverEarlyFlush'],
+                        expect='NeverEarlyFlush'))
     # Socks
     jobs.append(Job('socks parser + case table', 'Socks', {}, SOCKS_INVS,
                     props=['AfterClose'], workers=1, dump=True))
     jobs.append(Job('socks loop as it is (expected NoRaise)', 'Socks',
                     dict(Fixed='FALSE', MaxIn=8), ['NoRaise'],
                     expect='NoRaise'))
-    for wname, depth in [('NeverV6', 28)] + \
-            ([] if quick else [('NeverV4a', 16), ('NeverOverlong', 12),
-                               ('NeverV5Name', 16)]):
+    for wname, depth in ([] if quick else
+                         [('NeverV6', 28), ('NeverV4a', 16),
+                          ('NeverOverlong', 12), ('NeverV5Name', 16)]):
         jobs.append(Job(f'socks witness {wname}', 'Socks',
                         dict(MaxIn=depth), [wname], expect=wname))
     # Listeners (several listeners on one connection)
     jobs.append(Job('listeners rules', 'Listeners',
-                    {} if quick else dict(MaxConn=3, KindSet=LSN_ALL_KINDS),
+                    dict(KindSet='{"rfwd", "lfwd", "rpath"}') if quick
+                    else dict(MaxConn=3, KindSet=LSN_ALL_KINDS),
                     LSN_INVS, workers=4))
     jobs.append(Job('listeners sensitivity WirePortZero (expected Routing)',
                     'Listeners', dict(WirePortZero='TRUE'), ['Routing'],
@@ -376,9 +378,10 @@ def main(ctx):
     jobs.append(Job('listeners sensitivity KeepClosed', 'Listeners',
                     dict(KeepClosed='TRUE'), ['ClosedRefuses'],
                     expect='ClosedRefuses'))
-    jobs.append(Job('listeners witness older dynamic listener', 'Listeners',
-                    {}, ['NeverOlderDynamic'], expect='NeverOlderDynamic'))
     if not quick:
+        jobs.append(Job('listeners witness older dynamic listener',
+                        'Listeners', {}, ['NeverOlderDynamic'],
+                        expect='NeverOlderDynamic'))
         jobs.append(Job('listeners witness port in use', 'Listeners', {},
                         ['NeverFailedOpen'], expect='NeverFailedOpen'))
     # ForwardPerm
@@ -612,6 +615,10 @@ def main(ctx):
                                f'complete: {err}')
         ctx.traces_validated(12)
 
+    # ---- 4c. code -> spec: recorded natural runs validated by TLC ----------
+    trace_validation(ctx, F, finds, quick, asis)
+    phase('traces')
+
     # ---- 5. ForwardPerm: every row against a real server --------------------
     pj = jobmap['perm table']
     rows = [tlc.parse_value(tlc.parse_value(l)) for l in pj.res.printed
@@ -793,6 +800,136 @@ def main(ctx):
     ]
 
 
+TRACE_DIAG = ['DiagOut', 'DiagSock', 'DiagPair', 'DiagChs', 'DiagChr',
+              'DiagBuf', 'DiagFeof', 'DiagCeof', 'DiagOutb', 'DiagCut']
+TRACE_MODES = ['mixed', 'whole', 'tiny', 'mixed nocut', 'stall whole',
+               'tiny noreset']
+
+
+def trace_consts(asis, **kw):
+    d = dict(FWD_DEFAULT, MaxW=200, Keeps='{"TT"}', **asis)
+    d.update(kw)
+    return d
+
+
+def trace_validation(ctx, F, finds, quick, asis):
+    """CODE -> SPEC: forwarded connections recorded from naturally scheduled
+    runs (independent tasks at the four ends, random segmentation and
+    stalls, early data, refusals, resets, SSH cut, listener close; one or
+    two connections at a time; every kind) are validated by TLC against
+    Forward.tla (ForwardTrace.tla); the C20 invariants are evaluated in
+    every recorded state.  Corrupted copies and a spec with a wrong rule
+    must be rejected."""
+    import copy
+    nruns = 42 if quick else 800
+    recs, traces, owner = [], [], []
+    early = []
+    for i in range(nruns):
+        args = dict(seed=ctx.seed * 7919 + i,
+                    kind=F.NAT_KINDS[i % len(F.NAT_KINDS)],
+                    nconn=2 if i % 3 == 2 else 1,
+                    mode=TRACE_MODES[(i // 2) % len(TRACE_MODES)])
+        r = F.record_natural(**args)
+        st = r['stats']
+        ctx.count(('natural', args['kind'], args['nconn'], args['mode'], i),
+                  nontrivial=st['events'] >= 8)
+        rp = {'kind': 'natural', **args}
+        for clause, detail in r['l1']:
+            finds.add('ForwardTrace', clause, 'natural',
+                      f'{detail} (recorded run {args})', rp, 1)
+        for e in r['loop_exceptions']:
+            finds.add('ForwardTrace', 'Exception', e[:60],
+                      f'exception reached the event loop: {e} '
+                      f'(recorded run {args})', rp, 1)
+        if r['outcome'] != 'ok':
+            ctx.divergence(f'natural run {args}: {r["outcome"]}')
+        for t in r['traces']:
+            if t['stray']:
+                ctx.divergence(f'natural run {args}: messages sent outside '
+                               f'any step: {t["stray"][:3]}')
+            tr = {'ev': t['ev'], 'usz': t['usz']}
+            first_dao = next((e for e in t['ev'] if e['e'] == 'DAO'), None)
+            if len(early) < 3 and not r['l1'] and first_dao is not None \
+                    and any(o[0] == 'data' for o in first_dao['out']):
+                early.append(tr)        # early data flushed at confirmation
+            traces.append(tr)
+            owner.append(args)
+    if traces:
+        big = max(traces, key=lambda t: len(t['ev']))
+        ctx.notes.append({'recorded_trace_sample': big['ev'][:6]})
+    res, verdicts = tlc.validate_traces(
+        SPEC, 'ForwardTrace', traces, 'c20_tr', constants=trace_consts(asis),
+        diag=TRACE_DIAG, progress='TraceProgress', report='TraceReport')
+    ctx.add_tlc('ForwardTrace: recorded executions', res)
+    if res.violation:
+        finds.add('ForwardTrace', 'Invariant', res.violation,
+                  f'invariant {res.violation} fails on a recorded execution: '
+                  + res.output[-1200:], {'kind': 'natural-batch',
+                                         'args': owner[:50]}, 1)
+        return
+    if res.error:
+        raise MachineryError(f'ForwardTrace: {res.error}\n' +
+                             res.output[-3000:])
+    matched = 0
+    good = []
+    for i, v in sorted(verdicts.items()):
+        matched += v['matched']
+        if not v['accepted']:
+            ctx.divergence(f'recorded execution {owner[i]} is not a '
+                           f'behaviour of Forward.tla: {v["diagnosis"]}')
+        elif len(good) < 3 and len(traces[i]['ev']) >= 12 and \
+                any(e['e'] == 'DAO' and e['out'] == [] and
+                    e['st']['outb'] > 0 for e in traces[i]['ev']) and \
+                traces[i]['ev'][-1]['e'] != 'CUT':
+            good.append(traces[i])
+    ctx.coverage['recorded_traces_validated_by_tlc'] = len(verdicts)
+    ctx.coverage['recorded_events_matched'] = matched
+    ctx.traces_validated(len(verdicts))
+    # ---- binding controls ---------------------------------------------------
+    if ctx.divergences or finds.groups:
+        ctx.notes.append('trace binding controls skipped: recorded traces '
+                         'were rejected / flagged')
+        return
+    ctx.require(len(good) == 3 and early,
+                'no suitable recorded traces for the binding controls')
+    bad = []
+    t = copy.deepcopy(good[0])
+    i = [k for k, e in enumerate(t['ev']) if e['e'] == 'DAO' and
+         e['st']['outb'] > 0][0]
+    t['ev'][i]['st']['outb'] += 1
+    bad.append(('bytes handed to the application corrupted', t))
+    t = copy.deepcopy(good[1])
+    i = [k for k, e in enumerate(t['ev']) if e['e'] == 'DAO'][0]
+    del t['ev'][i]
+    bad.append(('confirmation receipt removed', t))
+    t = copy.deepcopy(good[2])
+    i = [k for k, e in enumerate(t['ev']) if e['e'] == 'W' and e['out']][0]
+    t['ev'][i]['out'][0][1] += 1
+    bad.append(('relayed message one byte longer', t))
+    t = copy.deepcopy(good[0])
+    i = [k for k, e in enumerate(t['ev']) if e['e'] in ('E', 'C') and
+         not e['late']]
+    if i:
+        t['ev'][i[0]]['st']['feof'] = False
+        bad.append(('EOF flag corrupted', t))
+    res2, v2 = tlc.validate_traces(
+        SPEC, 'ForwardTrace', [b[1] for b in bad], 'c20_tr_neg',
+        constants=trace_consts(asis), progress='TraceProgress',
+        report='TraceReport')
+    for i, (what, _) in enumerate(bad):
+        ctx.require(i in v2 and not v2[i]['accepted'],
+                    f'binding control "{what}" was accepted by ForwardTrace')
+    res3, v3 = tlc.validate_traces(
+        SPEC, 'ForwardTrace', early, 'c20_tr_sens',
+        constants=trace_consts(asis, DropEarly='TRUE'), invariants=(),
+        progress='TraceProgress', report='TraceReport')
+    ctx.require(v3 and not any(v['accepted'] for v in v3.values()),
+                'a spec that drops early data accepted a recorded trace with '
+                'early data')
+    ctx.notes.append(f'trace binding controls: {len(bad)} corrupted traces '
+                     f'and {len(early)} traces against a wrong rule rejected')
+
+
 def replay_one(ctx, F, finds):
     with open(ctx.replay_path) as f:
         rec = json.load(f)
@@ -816,6 +953,11 @@ def replay_one(ctx, F, finds):
                       'Exception', {'input': data.hex()},
                       f'exception reached the event loop: '
                       f'{obs["exceptions"][0]}', rp, 1)
+    elif kind == 'natural':
+        args = {k: rp[k] for k in ('seed', 'kind', 'nconn', 'mode')}
+        r = F.record_natural(**args)
+        for clause, detail in r['l1']:
+            finds.add('ForwardTrace', clause, 'natural', detail, rp, 1)
     elif kind == 'listeners':
         labels = [tuple(l) for l in rp['labels']]
         r = F.replay_listeners(labels, nslots=4,
